@@ -232,17 +232,43 @@ def driving_finder(pid, failure, repo, seed):
         shutil.rmtree(scratch, ignore_errors=True)
 
 
-FINDERS = {"z80": z80_finder, "contention": contention_finder, "driving": driving_finder}
+def tape_finder(pid, failure, repo, seed):
+    """C11/C12: small TAP images played through the real Tap with bus-wait sized steps (and stop /
+    play commands at pseudo-random moments); every EAR pulse compared with the standard waveform"""
+    import re, shutil
+    scratch = os.path.join(os.environ.get("VERIF_SCRATCH", "/var/tmp"), "vp-replay-%s-%d" % (pid, os.getpid()))
+    try:
+        r = subprocess.run([sys.executable, os.path.join(VERIF, "kani", "inject.py"), scratch, "--repo", repo,
+                            "--no-lock-bump"], capture_output=True, text=True)
+        if r.returncode != 0:
+            return None
+        cmd = ["cargo", "test", "--offline", "-q", "-p", "rustzx-core", "--features", "full", "--lib", "verif_tape_native",
+               "--", "--nocapture"]
+        p = subprocess.run(cmd, cwd=scratch, env=dict(os.environ, CARGO_NET_OFFLINE="true", VERIF_SEED=str(seed or 1)),
+                           capture_output=True, text=True, timeout=1500)
+        ms = re.findall(r"^MISMATCH .*$", p.stdout, re.M)
+        if not ms:
+            return None
+        return dict(kind="tape-waveform", record=ms[0], all=ms[:8],
+                    replay_cmd="python3 %s/kani/inject.py /var/tmp/vp-replay-tape --no-lock-bump >/dev/null && cd /var/tmp/vp-replay-tape && "
+                               "VERIF_SEED=%s cargo test --offline -q -p rustzx-core --features full --lib verif_tape_native -- --nocapture; "
+                               "rc=$?; rm -rf /var/tmp/vp-replay-tape; test $rc -eq 0" % (VERIF, seed or 1))
+    finally:
+        shutil.rmtree(scratch, ignore_errors=True)
+
+
+FINDERS = {"z80": z80_finder, "contention": contention_finder, "driving": driving_finder, "tape": tape_finder}
 VERUS_FINDERS = {("ctl", "contention_clocks"): "contention",
                  ("ctl", "emulate_frames"): "driving", ("ctl", "reset_frame_counter"): "driving",
                  ("ctl", "take_events"): "driving", ("ctl", "take_last_emulation_error"): "driving",
-                 ("ctl", "process_fast_load_event"): "driving", ("ctl", "take"): "driving", ("mixer", "pop"): "driving"}
+                 ("ctl", "process_fast_load_event"): "driving", ("ctl", "take"): "driving", ("mixer", "pop"): "driving",
+                 ("tape", None): "tape"}
 
 
 def find_input(pid, failure, repo, seed):
     finder = failure.get("finder")
     if not finder and failure.get("engine") == "verus":
-        finder = VERUS_FINDERS.get((failure.get("unit"), failure.get("function")))
+        finder = VERUS_FINDERS.get((failure.get("unit"), failure.get("function"))) or VERUS_FINDERS.get((failure.get("unit"), None))
     found = None
     if isinstance(finder, str):
         finder = FINDERS.get(finder)
